@@ -1,6 +1,10 @@
 package types
 
-import "fmt"
+import (
+	"fmt"
+
+	"github.com/ethereum/go-ethereum/common"
+)
 
 // NewGenesisState creates a new genesis state.
 func NewGenesisState(params Params, pairs []TokenPair) GenesisState {
@@ -21,11 +25,11 @@ func DefaultGenesisState() *GenesisState {
 // Validate performs basic genesis state validation returning an error upon any
 // failure.
 func (gs GenesisState) Validate() error {
-	seenErc20 := make(map[string]bool)
+	seenErc20 := make(map[common.Address]bool)
 	seenDenom := make(map[string]bool)
 
 	for _, b := range gs.TokenPairs {
-		if seenErc20[b.Erc20Address] {
+		if seenErc20[b.GetERC20Contract()] {
 			return fmt.Errorf("token ERC20 contract duplicated on genesis '%s'", b.Erc20Address)
 		}
 		if seenDenom[b.Denom] {
@@ -36,7 +40,7 @@ func (gs GenesisState) Validate() error {
 			return err
 		}
 
-		seenErc20[b.Erc20Address] = true
+		seenErc20[b.GetERC20Contract()] = true
 		seenDenom[b.Denom] = true
 	}
 
